@@ -1,6 +1,8 @@
 (** C20 — All codec entry points agree with each other (value level). *)
 From FV Require Import Base.Bytes Codec.Value Codec.Enc Codec.Size Proofs.SizeProofs.
 From FV Require Import Tie.Tie_FormatCodes Gen.FormatCodes Gen.CodecConsts Codec.Spec.
+From Coq Require Import List.
+From FV Require Import Codec.Composite Proofs.CompositeProofs.
 Open Scope N_scope.
 
 (** Tie to the source of this run: the regenerated format-code table is the
@@ -45,3 +47,12 @@ Example C20_example :
   no_described_elems (VList [VArray [VNull; VNull]; VMap [(VSymbol [97], VList [])]; VBinary (repeat 1 300)]) = true /\
   size_of Plain (VList [VArray [VNull; VNull]; VMap [(VSymbol [97], VList [])]; VBinary (repeat 1 300)]) = Some 326.
 Proof. split; vm_compute; reflexivity. Qed.
+
+(** the typed layer: for every composite type (any schema) and every field vector, the size the derived
+    [serialize] reports through the SizeSerializer is the length of what it writes through the Serializer
+    (pending nulls, trailing-field elision and defaults included), and they fail together *)
+Theorem C20_composite_size_is_length :
+  forall s vs, forallb no_described_elems vs = true ->
+    agree (size_composite Plain s vs) (enc_composite Plain s vs).
+Proof. exact composite_size_is_length. Qed.
+Print Assumptions C20_composite_size_is_length.
